@@ -182,3 +182,7 @@ def check(col: Collector):
     c01._trigger_closure(col, "C02.R3")
     # a stale scheduling edge makes tasks outside the dependent set run
     inverse_effects(col, "C02.R5", only_indices=("rtasks", "deptasks", "tartasks"))
+    # the set of triggered tasks is read off the tasks' dependency sets: they must be the expression's full read set
+    from . import c05
+    from .common import shared
+    shared(col, "C02.R6", [c05._structure], why="a task is triggered through its declared dependencies only")
